@@ -637,6 +637,166 @@ class _Checker:
             if nrun >= (9 if self.ctx.quick else 45):
                 break
 
+    # ---- executable level: many molecules per frame, many frames, --nt 4 and 8 (OS schedule) -------------------
+    def exec_app_stress(self, bindir):
+        """the per-frame result must not depend on what other workers are doing at the same time: frames of
+        NM molecules are tiled from single-molecule instances whose CG image TLC computed (same box inside
+        a frame), so each Apply() is long enough for mapping calls of different workers to overlap under the
+        OS scheduler.  Deterministic code gives the spec's answer on every run; state shared between mapping
+        calls of different threads (a static scratch buffer, a cached unwrapped position) shows as a wrong
+        bead, a crash or a hang.  Detection is probabilistic, acceptance is not: nothing here depends on timing
+        when the property holds."""
+        import shutil
+        import subprocess
+        ctx = self.ctx
+        exe = os.path.join(bindir, "drv_cgapp")
+        rnd = random.Random(ctx.seed * 7919 + 11)
+        groups = {}
+        for r in self.app_pool:
+            if any(st["mass"] != r["md"]["mass"] for st in r["h"]):
+                continue
+            for st in r["h"]:
+                key = json.dumps([r["md"], st["fl"], st["box"]], sort_keys=True)
+                g = groups.setdefault(key, {"md": r["md"], "fl": st["fl"], "box": st["box"], "inst": {}})
+                for pos, out in ((st["pos"], st["out"]), (st["pos2"], st["out2"])):
+                    if st["fl"]["hv"] == "all":
+                        ident = json.dumps([pos, st["vel"]])
+                    else:
+                        ident = json.dumps(pos)
+                    g["inst"].setdefault(ident, {"pos": pos, "vel": st.get("vel"), "out": list(out)})
+        ranked = sorted(groups.items(), key=lambda kv: (-len(kv[1]["inst"]) * kv[1]["md"]["n"], kv[0]))
+        ranked = [kv for kv in ranked if len(kv[1]["inst"]) >= 4 and kv[1]["md"]["n"] >= 2]
+        # rep: every CG bead definition is repeated `rep` times in the mapping file, so that mapping a frame
+        # (done by the workers in parallel) costs more than reading it (done under the reader lock, serially);
+        # without this the workers' Apply() calls hardly ever overlap
+        ngroups, nm, nf, rep_ = (2, 60, 40, 24) if ctx.quick else (8, 100, 120, 32)
+        for gi, (key, g) in enumerate(ranked[:ngroups]):
+            md, fl, box = g["md"], g["fl"], g["box"]
+            n = md["n"]
+            withvel = fl["hv"] == "all"
+            inst = [g["inst"][k] for k in sorted(g["inst"])]
+            frames, seen = [], set()
+            while len(frames) < nf:
+                pick = [rnd.randrange(len(inst)) for _ in range(nm)]
+                if tuple(pick) in seen:
+                    continue
+                seen.add(tuple(pick))
+                frames.append(pick)
+            d = vlib.scratch_file("c01-stress-%d" % gi)
+            os.makedirs(d, exist_ok=True)
+
+            def gro_frame(pick):
+                lines = ["frame", "%5d" % (nm * n)]
+                k = 0
+                for mol, ii in enumerate(pick):
+                    it = inst[ii]
+                    for i, p in enumerate(it["pos"]):
+                        k += 1
+                        ln = "%5d%-5s%5s%5d%8.3f%8.3f%8.3f" % (mol + 1, "R", "A%d" % (i + 1), k, p[0] / U, p[1] / U, p[2] / U)
+                        if withvel:
+                            ln += "%8.4f%8.4f%8.4f" % tuple(float(x) for x in it["vel"][i])
+                        lines.append(ln)
+                a, b, c = box
+                lines.append(" ".join("%.5f" % (v / U) for v in (a[0], b[1], c[2], a[1], a[2], b[0], b[2], c[0], c[1])))
+                return "\n".join(lines) + "\n"
+
+            with open(os.path.join(d, "conf.gro"), "w") as f:
+                f.write(gro_frame(frames[0]))
+            with open(os.path.join(d, "traj.gro"), "w") as f:
+                for pick in frames:
+                    f.write(gro_frame(pick))
+            with open(os.path.join(d, "top.xml"), "w") as f:
+                f.write('<topology base="conf.gro"><molecules><define name="M" first="1" nbeads="%d" nmols="%d"/>'
+                        '</molecules></topology>\n' % (n, nm))
+            with open(os.path.join(d, "map.xml"), "w") as f:
+                f.write(_xml(dict(md, beads=list(md["beads"]) * rep_), "1:R:"))
+            byatoms = {}
+            for j, pick in enumerate(frames):
+                byatoms[tuple(tuple(p) for ii in pick for p in inst[ii]["pos"])] = j
+            if len(byatoms) != len(frames):
+                shutil.rmtree(d, ignore_errors=True)
+                continue          # two picks with the same atoms (instances that differ in velocity only)
+            for nt in (8, 4):
+                ctx.traces += 1
+                self.stats["stress_runs"] = self.stats.get("stress_runs", 0) + 1
+                rep = {"app_stress": {"md": md, "fl": fl, "box": box, "nt": nt, "nmol": nm, "nframes": nf, "bead_repeat": rep_,
+                                      "instances": [[it["pos"], it["vel"] if withvel else None] for it in inst],
+                                      "frames": frames}}
+                try:
+                    p = subprocess.run([exe, "--top", "top.xml", "--trj", "traj.gro", "--cg", "map.xml", "--nt", str(nt)],
+                                       cwd=d, stdout=subprocess.PIPE, stderr=subprocess.STDOUT, text=True, timeout=300)
+                except subprocess.TimeoutExpired:
+                    ctx.violation("csgapp:stress:timeout", "threaded application with --nt %d, %d molecules, %d frames "
+                                  "did not finish" % (nt, nm, nf), rep)
+                    continue
+                if p.returncode != 0:
+                    ctx.violation("csgapp:stress:failed", "--nt %d, %d molecules: exit %s: %s" %
+                                  (nt, nm, p.returncode, p.stdout[-300:]), rep)
+                    continue
+                got, cur = [], None
+                for ln in p.stdout.splitlines():
+                    if not ln.startswith("DUMP "):
+                        continue
+                    t = ln.split()
+                    if t[1] == "frame":
+                        cur = {"worker": t[3], "ref": [], "cg": []}
+                    elif cur is None:
+                        continue
+                    elif t[1] == "ref":
+                        cur["ref"].append(t[2:5])
+                    elif t[1] == "cg":
+                        cur["cg"].append(t)
+                    elif t[1] == "endframe":
+                        got.append(cur)
+                        cur = None
+                if len(got) != len(frames):
+                    ctx.violation("csgapp:stress:frame-count", "--nt %d: %d frames evaluated, the trajectory has %d" %
+                                  (nt, len(got), len(frames)), rep)
+                workers = set()
+                bad = 0
+                for fr in got:
+                    try:
+                        atoms = tuple(tuple(int(round(float(x) * U)) for x in a) for a in fr["ref"])
+                    except (ValueError, OverflowError):
+                        atoms = None
+                    j = byatoms.get(atoms)
+                    if j is None:
+                        ctx.violation("csgapp:stress:unknown-frame", "--nt %d worker %s evaluated a frame that is not in "
+                                      "the trajectory" % (nt, fr["worker"]), rep)
+                        continue
+                    workers.add(fr["worker"])
+                    exp = [e for ii in frames[j] for e in list(inst[ii]["out"]) * rep_]
+                    if len(fr["cg"]) != len(exp):
+                        ctx.violation("csgapp:stress:bead-count", "--nt %d frame %d: %d CG beads, expected %d" %
+                                      (nt, j, len(fr["cg"]), len(exp)), rep)
+                        continue
+                    for k, (t, e) in enumerate(zip(fr["cg"], exp)):
+                        self.stats["stress_beads"] = self.stats.get("stress_beads", 0) + 1
+                        try:
+                            hp, pos = t[6] == "1", [float(x) for x in t[7:10]]
+                            hv, vel = t[11] == "1", [float(x) for x in t[12:15]]
+                            if len(pos) != 3 or len(vel) != 3:
+                                raise ValueError("short line")
+                        except (ValueError, IndexError):
+                            ctx.violation("csgapp:stress:output-unreadable", "--nt %d frame %d: %s" % (nt, j, t), rep)
+                            break
+                        cands = [[x / (e["W"] * U) for x in cnd] for cnd in e["cands"]]
+                        if not hp or not any(_vclose(pos, cnd) for cnd in cands):
+                            bad += 1
+                            if bad <= 3:
+                                ctx.violation("csgapp:stress:pos", "--nt %d, worker %s, frame %d: CG bead %d (molecule %d of "
+                                              "%d) at %s, but the map of ITS atoms is %s" %
+                                              (nt, fr["worker"], j, k, k // max(1, len(inst[0]["out"]) * rep_), nm, pos, cands), rep)
+                        if withvel:
+                            ev = [x / e["W"] for x in e["velnum"]]
+                            if not hv or not _vclose(vel, ev):
+                                bad += 1
+                                if bad <= 3:
+                                    ctx.violation("csgapp:stress:vel", "--nt %d, worker %s, frame %d: CG bead %d velocity %s "
+                                                  "expected %s" % (nt, fr["worker"], j, k, vel, ev), rep)
+                self.stats["stress_max_workers"] = max(self.stats.get("stress_max_workers", 0), len(workers))
+            shutil.rmtree(d, ignore_errors=True)
+
     def _write_exec(self, d, md, withvel, steps):
         n = md["n"]
 
@@ -906,6 +1066,10 @@ def run(ctx):
         chk.exec_app(bindir)
         if not (st.get("app_frames_worker0") and st.get("app_frames_workerN")):
             raise vlib.InfraError("vacuous threaded-application layer: %s" % {k: v for k, v in st.items() if k.startswith("app")})
+        # ---- 4c. the same application under load: 120-200 molecules per frame, --nt 8 and 4, OS schedule -----------
+        chk.exec_app_stress(bindir)
+        if not (st.get("stress_runs") and st.get("stress_beads") and st.get("stress_max_workers", 0) >= 2):
+            raise vlib.InfraError("vacuous stress layer: %s" % {k: v for k, v in st.items() if k.startswith("stress")})
 
         # ---- 5. opposite direction ----------------------------------------------------------------------------------
         if quick:
